@@ -714,8 +714,12 @@ func (s *Sim) latency(a, b *Node, st Stream) int64 {
 
 // retransmission: the identity of n has broadcast this very payload (same type, height, view,
 // index and content) before - possibly in an earlier incarnation.  The conditions for sending
-// a vote are judged when it is first sent; sending the identical payload again is C03's matter.
+// a vote are judged when it is first sent; sending the identical payload again - after this
+// incarnation got it back from its peers - is C03's matter.
 func (s *Sim) retransmission(n *Node, p *Payload) bool {
+	if !n.facts.heard[p.Hash()] {
+		return false // this incarnation did not get the vote back from anybody
+	}
 	for _, a := range s.authentic {
 		if a != p && a.T == p.T && a.H == p.H && a.V == p.V && a.Idx == p.Idx && a.sender >= 0 && a.sender < len(s.nodes) && s.nodes[a.sender].ident == n.ident && a.Hash() == p.Hash() {
 			return true
